@@ -370,9 +370,10 @@ Ltac disagree :=
   unfold disagreement; split; [intros; discriminate|]; split; [intros; discriminate|];
   split; [reflexivity|]; vm_compute; (intros H; exact H) || discriminate.
 
-(* F-C16-1  python_version in "3.9": both operands are versions, Go asks for the constraint "in3.9" *)
+(* F-C16-1  python_version in "3.9": both operands are versions (here: every string is), Go asks
+   for the constraint "in3.9".  The witnesses do not depend on the values of the target environment. *)
 Theorem refuted_word_op_on_versions :
-  disagreement (fun s => bytes_eqb s [51;46;57]) sat_rejects spec_rejects
+  disagreement (fun _ => true) sat_rejects spec_rejects
     (atom1 (AVarLit VPythonVersion CIn (dq [51;46;57]))) [].
 Proof. disagree. Qed.
 
@@ -387,9 +388,9 @@ Theorem refuted_extra_normalisation :
     (atom1 (AVarLit VExtra CEq (dq [70;111;111;95;66;97;114]))) [[102;111;111;45;98;97;114]].
 Proof. disagree. Qed.
 
-(* F-C16-4  os_name < "z": Go compares strings lexicographically, packaging 26.3 answers false *)
+(* F-C16-4  os_name < "~": Go compares strings lexicographically, packaging 26.3 answers false *)
 Theorem refuted_ordered_strings :
-  disagreement no_version sat_rejects spec_rejects (atom1 (AVarLit VOsName CLt (dq [122]))) [].
+  disagreement no_version sat_rejects spec_rejects (atom1 (AVarLit VOsName CLt (dq [126]))) [].
 Proof. disagree. Qed.
 
 (* F-C16-5  os_name === "posix": string equality in Go, UndefinedComparison in packaging *)
@@ -416,7 +417,7 @@ Proof. disagree. Qed.
 
 (* the domain is inhabited by ordinary markers: python_version >= "3.8" and extra == "test" *)
 Example domain_nonvacuous :
-  let valid := fun s => bytes_eqb s [51;46;57] || bytes_eqb s [51;46;56] in
+  let valid := fun _ : bytes => true in
   let sat := fun (o : N) (rhs lhs : bytes) => Ok true in
   let spec := fun (o : N) (rhs lhs : bytes) => Some true in
   let m := TAnd (atom1 (AVarLit VPythonVersion CGe (dq [51;46;56]))) [false]
